@@ -291,37 +291,45 @@ def TBW.expectMore (w : TBW) : Bool := i32sub (i32sub w.reserve w.tokens) w.toke
 /-- `uint32(lastQPS)` for the clamped observed rate `num/den ≥ 0` (truncation) -/
 def rateToU32 (num den : Int) : Int := toU32 (Int.tdiv num den)
 
+/-- the degraded qps of the error fallback: `uint32(min(max(meter.Rate(), localQPS), m.qps))`, the rate being
+    `rateNum/rateDen` -/
+def tbDegradedQps (m : Meter) (localQps wqps : Int) : Int :=
+  if m.rateNum < localQps * m.rateDen then (if localQps > wqps then wqps else toU32 localQps)
+  else if m.rateNum > wqps * m.rateDen then wqps
+  else rateToU32 m.rateNum m.rateDen
+
+/-- `atomic.AddInt32(&m.tokenInflight, -acquireResult.request.Tokens)` when the result carries its request -/
+def TBW.noteRequest (w : TBW) (r : Reply) : TBW :=
+  if r.hasReq then { w with tokenInflight := i32add w.tokenInflight (toI32 (-r.tokens)) } else w
+
+/-- the error fallback: `Resize(uint32(lastQPS), min(uint32(lastQPS), m.burst))`, `serverUnavailable = 1` -/
+def TBW.degrade (w : TBW) (localQps : Int) (m : Meter) : TBW :=
+  let q := tbDegradedQps m localQps w.qps
+  { w with inner := (w.inner.resize q (if q > w.burst then w.burst else q)).1, unavail := true }
+
+/-- an accepted reply ends the outage: `Resize(m.qps, m.burst)`, `serverUnavailable = 0` -/
+def TBW.recover (w : TBW) : TBW :=
+  if w.unavail then { w with inner := (w.inner.resize w.qps w.burst).1, unavail := false } else w
+
+/-- `atomic.AddInt32(&m.tokens, clamp(result.Limit, 0, m.reserve))` -/
+def TBW.addTokens (w : TBW) (limit : Int) : TBW :=
+  let token := if limit > w.reserve then w.reserve else limit
+  { w with tokens := i32add w.tokens (if token < 0 then 0 else token) }
+
 /-- `tokenBucketWrapper.SetLimit`: the wrapper and the returned `expectMore()` -/
 def TBW.setLimit (w : TBW) (loc : Schema) (m : Meter) (r : Reply) : Except String (TBW × Bool) :=
-  let w := if r.hasReq then { w with tokenInflight := i32add w.tokenInflight (toI32 (-r.tokens)) } else w
+  let w := w.noteRequest r
   match r.err with
   | .tooOld => .ok (w, w.expectMore)
   | .other =>
     if !w.unavail then
       match loc.tb with
       | none => .error "panic:nil-deref localConfig.TokenBucket"
-      | some lt =>
-        -- lastQPS := max(rate, localQPS) then min(., m.qps), compared as rationals num/den
-        let q : Int :=
-          if m.rateNum < lt.qps * m.rateDen then
-            (if lt.qps > w.qps then w.qps else toU32 lt.qps)
-          else if m.rateNum > w.qps * m.rateDen then w.qps
-          else rateToU32 m.rateNum m.rateDen
-        -- degradedBurst := min(uint32(lastQPS), m.burst)
-        let b : Int := if q > w.burst then w.burst else q
-        let w := { w with inner := (w.inner.resize q b).1, unavail := true }
-        .ok (w, w.expectMore)
+      | some lt => .ok (w.degrade lt.qps m, (w.degrade lt.qps m).expectMore)
     else .ok (w, w.expectMore)
   | .none =>
-    let w :=
-      if r.accept then
-        let w := if w.unavail then { w with inner := (w.inner.resize w.qps w.burst).1, unavail := false } else w
-        let token := if r.limit > w.reserve then w.reserve else r.limit
-        let token := if token < 0 then 0 else token
-        { w with tokens := i32add w.tokens token }
-      else w
-    let w := { w with lastAcquireTime := r.rt }
-    .ok (w, w.expectMore)
+    let w1 := if r.accept then w.recover.addTokens r.limit else w
+    .ok ({ w1 with lastAcquireTime := r.rt }, ({ w1 with lastAcquireTime := r.rt } : TBW).expectMore)
 
 /-! ## `remoteWrapper` -/
 
@@ -337,14 +345,16 @@ def bound (v global : Int) : Int :=
   let v := if v > global then global else v
   if v < 0 then 0 else v
 
+/-- `globalMax`, `globalQPS`, `globalBurst` of `boundByGlobalLimit`: the configured value, else `math.MaxInt32` -/
+def Schema.globalMax (s : Schema) : Int := match s.gmi with | some g => g | none => maxInt32
+def Schema.globalQps (s : Schema) : Int := match s.gtb with | some g => g.qps | none => maxInt32
+def Schema.globalBurst (s : Schema) : Int := match s.gtb with | some g => g.burst | none => maxInt32
+
 /-- `remoteWrapper.boundByGlobalLimit` -/
 def boundByGlobalLimit (loc : Schema) (i : Item) : Item :=
-  let globalMax := match loc.gmi with | some g => g | none => maxInt32
-  let gq := match loc.gtb with | some g => g.qps | none => maxInt32
-  let gb := match loc.gtb with | some g => g.burst | none => maxInt32
   { i with
-    mi := i.mi.map (fun m => bound m globalMax)
-    tb := i.tb.map (fun t => { qps := bound t.qps gq, burst := bound t.burst gb }) }
+    mi := i.mi.map (fun m => bound m loc.globalMax)
+    tb := i.tb.map (fun t => { qps := bound t.qps loc.globalQps, burst := bound t.burst loc.globalBurst }) }
 
 /-- `toFlowControlSchema` -/
 def toSchema (i : Item) : Schema :=
@@ -373,19 +383,24 @@ def newGFC (applied : Item) : Except String GFC := do
   let fc ← newLim (toSchema applied)
   newCounter applied fc
 
+/-- `f.remoteConfig.Strategy` (the zero value's is `""`) -/
+def Remote.strategy (r : Remote) : Strategy :=
+  match r.remoteConfig with
+  | some c => c.strategy
+  | none => .empty
+
 /-- `remoteWrapper.Sync` -/
 def remoteSync (r : Remote) (loc : Schema) (i : Item) : Except String Remote :=
   let applied := boundByGlobalLimit loc i
   if some i = r.remoteConfig ∧ some applied = r.appliedConfig then .ok r
   else
     let newType := itemType i
-    let oldStrategy := match r.remoteConfig with | some c => c.strategy | none => Strategy.empty
     match r.fc with
     | none => do
         let g ← newGFC applied
         pure { remoteConfig := some i, appliedConfig := some applied, fc := some g }
     | some g =>
-      if g.inner.kind ≠ newType ∨ oldStrategy ≠ i.strategy then do
+      if g.inner.kind ≠ newType ∨ r.strategy ≠ i.strategy then do
         let g' ← newGFC applied
         pure { remoteConfig := some i, appliedConfig := some applied, fc := some g' }
       else
@@ -421,16 +436,18 @@ structure HB where
   ready : Bool := false
   deriving DecidableEq, Repr, Inhabited
 
+/-- `time.Now().After(status.lastChange.Add(ServerHeartBeatTimeout))` -/
+def hbAfter (lastChange : Option Int) (now : Int) : Bool :=
+  match lastChange with
+  | none => true
+  | some t => decide (now > t + serverHeartBeatTimeout)
+
 /-- `setLeaderStatus(shard, server, ready)` at time `now` (on the status of that shard, created when missing) -/
 def hbStep (h : HB) (ready : Bool) (now : Int) : HB :=
   let h := if h.lastState ≠ ready then { h with lastState := ready, lastChange := some now } else h
   if h.ready ≠ ready then
     if ready then { h with ready := true }
-    else
-      let after := match h.lastChange with
-        | none => true
-        | some t => decide (now > t + serverHeartBeatTimeout)
-      if after then { h with ready := false } else h
+    else if hbAfter h.lastChange now then { h with ready := false } else h
   else h
 
 /-! ## `upstreamLimiter` with one schema name -/
@@ -488,8 +505,7 @@ def isReady (st : State) : Bool :=
 
 /-- `EnableRemoteFlowControl` (if needed) followed by `remoteWrapper.Sync(item)` -/
 def cacheRemoteSync (c : Cache) (i : Item) : Except String Cache := do
-  let r := match c.remote with | some r => r | none => {}
-  let r' ← remoteSync r c.loc.config i
+  let r' ← remoteSync (c.remote.getD {}) c.loc.config i
   pure { c with remote := some r' }
 
 def step (st : State) : Op → Except String State
@@ -508,8 +524,7 @@ def step (st : State) : Op → Except String State
   | .hb ok now other =>
     if other then .ok st
     else
-      let h := match st.hb with | some h => h | none => {}
-      .ok { st with hb := some (hbStep h ok now) }
+      .ok { st with hb := some (hbStep (st.hb.getD {}) ok now) }
   | .reconcileCount =>
     match st.cache with
     | none => .ok st
